@@ -98,6 +98,24 @@ func VerifHarness_C01_Wiring() {
 	g16, b16 := verifU16(), verifU16()
 	ce, ae := ColorFromEncodedColor(color.RGBA64{R: v16, G: g16, B: b16, A: 65535})
 	verifAssert(verifAnd(verifAnd(verifSameF32(ce.R, From16Bit(v16)), verifSameF32(ce.G, From16Bit(g16))), verifAnd(verifSameF32(ce.B, From16Bit(b16)), ae == 1)), "ColorFromEncodedColor(opaque RGBA64) is not (T16[R],T16[G],T16[B]), alpha 1")
+	// the generic constructor on every standard opaque colour type (8-bit components are
+	// widened to 257*v by the colour's RGBA method), and LineariseColor on top of it
+	t8 := func(v uint8) float32 { return encoded16ToLinearLUT[uint16(uint32(v)|uint32(v)<<8)] } // 257*v, written as image/color widens it
+	same3 := func(c Color, r, g, b float32) bool {
+		return verifAnd(verifSameF32(c.R, r), verifAnd(verifSameF32(c.G, g), verifSameF32(c.B, b)))
+	}
+	c1, a1 := ColorFromEncodedColor(color.NRGBA{R: v8, G: g8, B: b8, A: 255})
+	verifAssert(verifAnd(same3(c1, t8(v8), t8(g8), t8(b8)), a1 == 1), "ColorFromEncodedColor(opaque NRGBA) is not (T16[257R],T16[257G],T16[257B]), alpha 1")
+	c2, a2 := ColorFromEncodedColor(color.RGBA{R: v8, G: g8, B: b8, A: 255})
+	verifAssert(verifAnd(same3(c2, t8(v8), t8(g8), t8(b8)), a2 == 1), "ColorFromEncodedColor(opaque RGBA) is not (T16[257R],T16[257G],T16[257B]), alpha 1")
+	c3, a3 := ColorFromEncodedColor(color.NRGBA64{R: v16, G: g16, B: b16, A: 65535})
+	verifAssert(verifAnd(same3(c3, encoded16ToLinearLUT[v16], encoded16ToLinearLUT[g16], encoded16ToLinearLUT[b16]), a3 == 1), "ColorFromEncodedColor(opaque NRGBA64) is not (T16[R],T16[G],T16[B]), alpha 1")
+	c4, a4 := ColorFromEncodedColor(color.Gray{Y: v8})
+	verifAssert(verifAnd(same3(c4, t8(v8), t8(v8), t8(v8)), a4 == 1), "ColorFromEncodedColor(Gray) is not T16[257Y] on all channels, alpha 1")
+	c5, a5 := ColorFromEncodedColor(color.Gray16{Y: v16})
+	verifAssert(verifAnd(same3(c5, encoded16ToLinearLUT[v16], encoded16ToLinearLUT[v16], encoded16ToLinearLUT[v16]), a5 == 1), "ColorFromEncodedColor(Gray16) is not T16[Y] on all channels, alpha 1")
+	l1 := LineariseColor(color.NRGBA{R: v8, G: g8, B: b8, A: 255})
+	verifAssert(verifAnd(verifAnd(l1.R == linear.NormalisedTo16Bit(t8(v8)), l1.G == linear.NormalisedTo16Bit(t8(g8))), verifAnd(l1.B == linear.NormalisedTo16Bit(t8(b8)), l1.A == 65535)), "LineariseColor(opaque NRGBA) is not the 16-bit quantiser of (T16[257R],T16[257G],T16[257B]), alpha 65535")
 	verifReach("wired")
 }
 
